@@ -485,6 +485,9 @@ def classify(facts, tn, f, bi, kind, t):
             g = guards.holds(f, bi, bounds)
             if g:
                 return "index-guarded", "index %s is tested against the length in front of the access (%s)" % (sy.show(idx)[:30], guards.show_fact(f, g[1])[:50])
+            cd = counts_down_from_len(f, bi, idx, ln)
+            if cd:
+                return "index-counts-down", cd
             # an index handed in by array::from_fn / enumerate is below the length by construction
             if f.kind == "Closure" and idx[0] == "l" and sy.is_arg(idx[1]):
                 return "index-by-construction", "index is the closure's own argument (from_fn / enumerate)"
@@ -497,6 +500,61 @@ def classify(facts, tn, f, bi, kind, t):
             return "std-const-arg", "constant non-zero size"
         return None, "%s::%s panics unless %s, and nothing here shows that it does (%s)" % (ps[0], ps[1], ps[2], " , ".join(sy.show(a)[:40] for a in args[1:]))
     return None, "unknown kind"
+
+
+def counts_down_from_len(f, bi, idx, ln):
+    """`let mut i = s.len(); while i > 0 { i -= 1; .. s[i] .. }`: the counter starts at the length of the indexed slice
+    (or at the k of `&x[..k]`), every other assignment to it subtracts one, and a decrement dominates the access inside
+    the same loop iteration: i <= len - 1 at the access"""
+    from . import scanidx as SI
+    from .cfg import cfg as _cfg
+    sy = sym(f)
+    if idx[0] != "l":
+        return None
+    il = idx[1]
+    defs = sy.defs.get(il, [])
+    if len(defs) < 2 or any(d[0] != "stmt" for d in defs):
+        return None
+    inits, decs = [], []
+    for d in defs:
+        e = sy.rvalue(d[3], 1)
+        if e[0] == "f" and e[2] == "0" and e[1][0] in ("bin", "ovf"):
+            e = e[1]
+        if e[0] in ("bin", "ovf") and e[1].replace("WithOverflow", "").replace("Unchecked", "") == "Sub" and e[2] == ("l", il) and e[3] == ("c", 1):
+            decs.append(d[1])
+        else:
+            inits.append((d[1], e))
+    if len(inits) != 1 or not decs:
+        return None
+    init = SI.peel(sy, inits[0][1])
+    # the indexed sequence: PtrMetadata(s) / s.len()
+    seq = None
+    x = ln
+    if x[0] == "un" and x[1] == "PtrMetadata":
+        seq = x[2]
+    elif x[0] == "call" and x[2].rsplit("::", 1)[-1] == "len" and len(x[3]) == 1:
+        seq = x[3][0]
+    if seq is None:
+        return None
+    ok_len = False
+    s_init = SI.len_of(f, init)
+    if s_init is not None and SI.strip(SI.peel(sy, s_init)) == SI.strip(SI.peel(sy, seq)):
+        ok_len = True
+    cut = SI.slice_cut(f, seq)
+    if cut is not None and SI.strip(SI.peel(sy, cut[1])) == SI.strip(init):
+        k = SI.peel(sy, cut[1])
+        if k[0] != "l" or SI.unchanged_between(f, k[1], cut[0], bi):
+            ok_len = True
+    if not ok_len:
+        return None
+    c = _cfg(f)
+    loops = [body for h, body in c.loops().items() if bi in body]
+    if not loops:
+        return None
+    body = min(loops, key=len)
+    if not any(db in body and c.dominates(db, bi) for db in decs):
+        return None
+    return "index %s starts at the length of the indexed slice, only counts down, and is decremented in front of the access in every iteration" % sy.show(idx)[:30]
 
 
 def run_r4(ctx, rule, tn):
